@@ -765,7 +765,7 @@ def _env_events(chk, kinds, n=6):
         for k in range(max(2, n // 2)):
             typed = []
             for _ in range(rnd.randint(2, 5)):
-                typed.append(rnd.choice(["a", "b", "Z", "0", "\u00e9", "\u2713", "\U0001F600", "q"]))
+                typed.append(rnd.choice(["a", "b", "Z", "0", "\u00e9", "\u2713", "\U0001F600", "q", "\u0436", "\u07ff", "\uffee", "\U0010ffff"]))
             nbytes = sum(len(t.encode()) for t in typed)
             src = "ld r1 n\nloop getc\nputn\nld r0 nl\nout\nadd r1 r1 #-1\nbrp loop\nhalt\nn .fill #%d\nnl .fill x0a\n" % nbytes
             path = os.path.join(d, "tty%d.asm" % k)
